@@ -1,5 +1,13 @@
+-- Root of the library: every module that `lake build` (setup) must check.
 import Tup.Basic
 import Tup.DrvUtil
+import Tup.Base64
+import Tup.Esc
 import Tup.Model.IdSpace
 import Tup.Spec.Layout
+import Tup.Spec.Diacritics
+import Tup.Spec.Term
+import Tup.Spec.Decode
+import Tup.Gen.Diacritics
 import Tup.Drv.Ids
+import Tup.Props.C10
